@@ -34,11 +34,11 @@ PRELUDE = """(define (box-cycle n) (let ((first (box 0))) (let loop ((i 1) (prev
 (define (chain-base b depth) (let loop ((b b) (d 0)) (if (< d depth) (loop (unbox b) (+ d 1)) (list d b))))"""
 
 KINDS = ["channels", "channels-via-map", "channels-via-apply", "mutex-counter", "global-assignment", "collectors",
-         "exit-during-stop", "box-chains", "spawn-tree", "assign-then-tell", "assigners-vs-collectors", "spawn-during-assignment", "handled-errors"]
+         "exit-during-stop", "box-chains", "spawn-tree", "assign-then-tell", "assigners-vs-collectors", "spawn-during-assignment", "handled-errors", "large-live-sets"]
 # which property a wrong *result* of a finished program speaks about
 OWNER = {"channels": "C16", "channels-via-map": "C16", "channels-via-apply": "C16", "exit-during-stop": "C16",
          "collectors": "C15", "mutex-counter": "C15", "global-assignment": "C15", "box-chains": "C15",
-         "spawn-tree": "C15", "assign-then-tell": "C15", "assigners-vs-collectors": "C15", "spawn-during-assignment": "C15", "handled-errors": "C15"}
+         "spawn-tree": "C15", "assign-then-tell": "C15", "assigners-vs-collectors": "C15", "spawn-during-assignment": "C15", "handled-errors": "C15", "large-live-sets": "C15"}
 
 
 def gen_program(r, workers, n, kind=None):
@@ -169,6 +169,17 @@ def gen_program(r, workers, n, kind=None):
         L.append("(verif-emit (map thread-join! ts))\n(verif-emit (list %s))" % " ".join("a%d" % i for i in range(na)))
         exp.append("(L" + "".join(" i:%d" % (m - 1) for i in range(na)) + "".join(" i:%d" % i for i in range(workers - na)) + ")")
         exp.append("(L" + "".join(" i:%d" % (m - 1) for i in range(na)) + ")")
+    elif kind == "large-live-sets":
+        # every thread keeps tens of thousands of boxes alive in a list only its loop variable refers to, so that the slot
+        # vector fills up with live slots and collections started by one thread have to mark the other threads' lists
+        m = 40000 + n * 100    # (the defect this kind was written for needed ~10^5 live boxes in total)
+        L.append("""(define (worker id n)
+  (let loop ((i 0) (acc (list)))
+    (if (< i n) (loop (+ i 1) (cons (box (+ i id)) acc))
+        (list id (length acc) (unbox (car acc)) (unbox (list-ref acc (- n 1)))))))""")
+        L.append("(define threads (map (lambda (id) (spawn-native-thread (lambda () (worker id %d)))) (range 0 %d)))" % (m, workers))
+        L.append("(verif-emit (map thread-join! threads))")
+        exp.append("(L" + "".join(" (L i:%d i:%d i:%d i:%d)" % (i, m, m - 1 + i, i) for i in range(workers)) + ")")
     elif kind == "handled-errors":
         # threads whose every third iteration raises an error inside a primitive called from a compiled function, caught by
         # a handler in the same loop, and which then carry on reading a global that another thread keeps assigning while a
@@ -267,7 +278,7 @@ SYNC_COUNTERS = ("STOP_THE_WORLD", "STOP_THE_WORLD_FINISHED", "SCANS_OF_OTHER_TH
 
 
 def programs(tier):
-    nprog = 65 if tier == "quick" else 715
+    nprog = 70 if tier == "quick" else 770
     r = core.rng("C16")     # the same workload for both properties
     progs = []
     for i in range(nprog):
@@ -282,7 +293,7 @@ def run(prop, tier):
     rep = core.Reporter(prop, tier)
     progs = programs(tier)
     rep.coverage["rule"] = (
-        "generated programs with 1..8 native threads (13 kinds, see module docstring) x configurations {JIT on/off, top level / "
+        "generated programs with 1..8 native threads (14 kinds, see module docstring) x configurations {JIT on/off, top level / "
         "compiled as a module, forced full collections every k-th allocation, seeded delays at the handshake's suspension "
         "points}; distinct by (program, config); non-trivial = >= 2 threads ran and a stopper inspected another thread's "
         "state at least once in that run (H-sync counter SCANS_OF_OTHER_THREADS)")
@@ -296,6 +307,8 @@ def run(prop, tier):
             c = {"id": "p%d" % i, "units": [src], "timeout_ms": CAP_MS, "stall_ms": STALL_MS, "no_vals": True, "mem_mb": 8192,
                  "sync_seed": core.seed() * 1000 + ci * 100 + i}
             c.update(opts)
+            if kind == "large-live-sets":
+                c.pop("gc_every", None)     # a forced full collection every k-th allocation over 10^5 live boxes takes minutes
             cases.append(c)
         results, meta = core.run_cases(cases, env=env, tag="c16", shards=8)
         for e in meta["harness_errors"]:
@@ -442,7 +455,7 @@ def parse_tsan_logs(paths):
             fr = [_frames(b) for b in stacks[:2]]
             while len(fr) < 2:
                 fr.append([])
-            reports.append((kind, fr[0], fr[1], rep_[:1500]))
+            reports.append((kind, fr[0], fr[1], rep_[:12000]))
     return reports
 
 
@@ -488,7 +501,7 @@ def tsan_pass(rep, progs):
             sig = "C15 ThreadSanitizer: data race between %s and %s" % (pair[0], pair[1])
             if sig not in seen:
                 seen[sig] = 1
-                rep.violation(sig, "one of the racing stacks runs through %s; report head:\n%s" % (through[0][0], raw[:900]),
+                rep.violation(sig, "one of the racing stacks runs through %s; report head:\n%s" % (through[0][0], raw[:9000]),
                               {"tsan": True, "note": "re-run ./check C15 --tier thorough"})
         else:
             stats["other_not_judged"] += 1
